@@ -108,14 +108,14 @@ pub fn maybe_block(tid: u32, id: u32, arg: usize) {
 
 /// A spawned thread announces itself (first thing its closure does).
 pub fn t_register(party: usize) {
+    if LOG_POINTS.load(Ordering::Relaxed) {
+        Ev::new("pt").u("id", T_START as u64).u("arg", party as u64).emit();
+    }
     if party == 0 || party >= NPARTY {
         return;
     }
     let tid = sys::gettid();
     PARTIES[party].tid.store(tid, Ordering::SeqCst);
-    if LOG_POINTS.load(Ordering::Relaxed) {
-        Ev::new("pt").u("id", T_START as u64).u("arg", party as u64).emit();
-    }
     maybe_block(tid, T_START, party);
 }
 
@@ -143,6 +143,9 @@ fn hk_before(op: &verif::Op) -> verif::Directive {
         return verif::Directive::Pass;
     }
     if matches!(op.kind, verif::OpKind::Load) {
+        if LOG_POINTS.load(Ordering::Relaxed) {
+            Ev::new("pt").u("id", X_LOAD as u64).u("arg", op.addr as u64).s("ord", ord_name(op.success)).emit();
+        }
         maybe_block(sys::gettid(), X_LOAD, op.addr);
     }
     verif::Directive::Run
